@@ -124,8 +124,8 @@ StringDictionaryHASHHF::StringDictionaryHASHHF(IteratorDictString *it, uint len,
 
   for (uint current = 1; current <= elements; current++) {
     // Checking the available space in textStrings and
-    // realloc if required
-    while ((bytesStrings + (2 * maxlength)) > reservedStrings)
+    // realloc if required (a codeword takes up to 32 bits)
+    while ((bytesStrings + 4 * (size_t)maxlength + 2) > reservedStrings)
       reservedStrings = Reallocate(&textStrings, reservedStrings);
 
     // Resetting variables for the next string
